@@ -303,6 +303,40 @@ def gen_recipe_case(rng, big_count=None, outputs=None, k9=False):
             "outputs": outputs}
 
 
+def gen_forward_case(rng, outputs=None, cont=False):
+    """a forward reference reserves an id for a row that is written after another row of the same table"""
+    outputs = outputs or rng.choice([o for o in OUTPUT_SETS if any(x in ("db", "sql") for x in o)])
+    values = [gen_value(rng, allow_k9=False) for _ in range(4)]
+    tb, ta = rng.sample(TABLES, 2)
+    templates = [{"table": ta, "count": rng.choice([None, 2]), "fields": [["f0", ["lit", "points ahead"]], ["f1", ["ref", "bb"]]],
+                  "friends": []},
+                 {"table": tb, "count": rng.choice([None, 2]), "fields": [["f0", ["lit", "first"]], ["f2", ["val", rng.randrange(4)]]],
+                  "friends": []},
+                 {"table": tb, "nick": "bb", "count": None, "fields": [["f0", ["lit", "second"]], ["f3", ["val", rng.randrange(4)]]],
+                  "friends": []}]
+    if rng.random() < 0.5:
+        templates.append({"table": rng.choice(TABLES), "count": rng.choice([1, 3]), "fields": [["f5", ["val", rng.randrange(4)]]],
+                          "friends": []})
+    case = {"kind": "recipe", "version": rng.choice([2, 3]), "values": values, "templates": templates, "outputs": outputs}
+    if cont:
+        case["continued"] = True
+    return case
+
+
+def gen_continued_case(rng, outputs=None):
+    """a run started from a continuation file, written into fresh outputs: ids do not start at 1"""
+    outputs = outputs or rng.choice([o for o in OUTPUT_SETS if any(x in ("db", "sql") for x in o)])
+    values = [rng.choice([["int", rng.randint(-9, 9)], ["str", rng.choice(HOSTILE[:12])], ["bool", True], ["none"]]) for _ in range(4)]
+    tabs = rng.sample(TABLES, rng.randint(1, 3))
+    templates = []
+    for _ in range(rng.randint(1, 3)):
+        tb = rng.choice(tabs)
+        fields = [[n, rng.choice([["val", rng.randrange(4)], ["idx"], ["lit", "abc"]])] for n in rng.sample(FIELDS, rng.randint(1, 3))]
+        templates.append({"table": tb, "count": rng.choice([None, 2, 3]), "fields": fields, "friends": []})
+    return {"kind": "recipe", "version": rng.choice([2, 3]), "values": values, "templates": templates, "outputs": outputs,
+            "continued": True}
+
+
 def gen_direct_case(rng, k9=False):
     fmts = rng.choice(OUTPUT_SETS + [["csv", "txt"], ["csv", "json", "sql"], ["csv"], ["db"], ["sql"]])
     sqlish = any(o in ("db", "sql") for o in fmts)
@@ -332,6 +366,18 @@ def gen_direct_case(rng, k9=False):
             else:
                 row.append([name, gen_value(rng, allow_k9=not sqlish)])
         rows.append([t["table"], row])
+    # ids as a continued run / forward references produce them: not starting at 1, not in write order
+    if rng.random() < 0.6:
+        for tb in sorted(ids):
+            start = rng.choice([1, 2, 5, 100, 10 ** 6])
+            new = list(range(start, start + ids[tb]))
+            if rng.random() < 0.6:
+                rng.shuffle(new)
+            j = 0
+            for t, r in rows:
+                if t == tb:
+                    r[0] = ["id", ["int", new[j]]]
+                    j += 1
     case = {"kind": "direct", "templates": templates, "rows": rows, "outputs": fmts}
     if sqlish and rng.random() < 0.7:
         fl = rng.choice([1, 2, 3, 4, 5, 7])
@@ -357,6 +403,12 @@ def generate(rng, tier):
             cases.append(gen_recipe_case(rng, outputs=list(outs)))
     for _ in range(30 if quick else 800):
         cases.append(gen_recipe_case(rng))
+    # ---- rows that reach the stream out of id order (forward references) / ids that do not start at 1 (continued runs)
+    for outs in [["db"], ["sql"], ["json", "sql", "db"], ["csv", "db"], None, None] * (1 if quick else 12):
+        cases.append(gen_forward_case(rng, outputs=outs and list(outs)))
+        cases.append(gen_continued_case(rng, outputs=outs and list(outs)))
+    for _ in range(2 if quick else 20):
+        cases.append(gen_forward_case(rng, cont=True))
     # ---- recipes: counts that straddle the thresholds, every single format and some combinations
     bigs = [999, 1000, 1001, 2500] + ([] if quick else [9999, 10000, 10001])
     singles = [["txt"], ["json"], ["csv"], ["sql"], ["db"]]
@@ -402,6 +454,8 @@ def recipe_doc(case, plugin_mod):
 
     def tpl(t):
         d = {"object": t["table"]}
+        if t.get("nick"):
+            d["nickname"] = t["nick"]
         if t.get("count") is not None:
             d["count"] = t["count"]
         if t.get("upd"):
@@ -594,6 +648,8 @@ def compare_output(fmt, dec, raw_rows, schema, names_hint=None):
             msgs.append("rows-lost: %s output has the rows in a different order than they were produced" % fmt)
     else:
         got = {t: d["rows"] for t, d in dec["tables"].items()}
+        if fmt in ("db", "sql"):
+            got = {t: in_write_order(rs, by_table.get(t, [])) for t, rs in got.items()}
         tables = sorted(set(by_table) | set(got) | set(schema))
         for t in tables:
             found[t] = len(got.get(t, []))
@@ -629,6 +685,24 @@ def compare_output(fmt, dec, raw_rows, schema, names_hint=None):
                     if [t, er, gr] not in samples:
                         samples.append([t, er, gr])
     return msgs, found, samples
+
+
+def in_write_order(got_rows, raw_rows):
+    """A table is read back in primary-key order.  When it holds exactly the ids that were written (all
+    different integers) return its rows in the order they were written; otherwise leave them alone."""
+    try:
+        want = [dict(r)["id"][1] for r in raw_rows if dict(r)["id"][0] == "int"]
+        have = {}
+        for r in got_rows:
+            c = dict((k, v) for k, v in r)["id"]
+            if c[0] != "num" or c[1] in have:
+                return got_rows
+            have[c[1]] = r
+    except (KeyError, IndexError, TypeError):
+        return got_rows
+    if len(want) != len(raw_rows) or len(set(want)) != len(want) or set(want) != set(have):
+        return got_rows
+    return [have[i] for i in want]
 
 
 def compare_row(fmt, table, raw, got, ti):
@@ -742,12 +816,28 @@ def run_recipe_case(case):
                 self.msgs.append([str(message)[:200], bool(err)])
 
         cap = _capture_stream()
+        cont_kw = {}
         try:
-            with open(rp, encoding="utf-8") as f:
-                generate(f, {}, cap, QuietApp())
+            if case.get("continued"):
+                # first run (into a capture stream) only produces the continuation file
+                try:
+                    with open(rp, encoding="utf-8") as f, open(d / "cont.yml", "w", encoding="utf-8") as cf:
+                        generate(f, {}, _capture_stream(), QuietApp(), generate_continuation_file=cf)
+                except BaseException as e:
+                    if type(e).__name__ == "_CaseTimeout":
+                        raise
+                    return {"skip": "the run that writes the continuation file failed (%s): not this property" % C.canon_exc(e)}
+                with open(rp, encoding="utf-8") as f, open(d / "cont.yml", encoding="utf-8") as cf:
+                    generate(f, {}, cap, QuietApp(), continuation_file=cf)
+                cont_kw["continuation_file"] = str(d / "cont.yml")
+            else:
+                with open(rp, encoding="utf-8") as f:
+                    generate(f, {}, cap, QuietApp())
         except BaseException as e:
             if type(e).__name__ == "_CaseTimeout":
                 raise
+            if case.get("continued"):
+                return {"skip": "the continued run fails in the interpreter (%s): not this property" % C.canon_exc(e)}
             return {"capture_err": C.canon_exc(e), "msg": str(e)[:300]}
         raw = cap.rows
         files, dburls, csv_folder, order = _output_paths(d, case["outputs"])
@@ -757,7 +847,7 @@ def run_recipe_case(case):
             kw.update(output_format="csv", output_folder=str(csv_folder))
         obs = {"raw_counts": dict(Counter(t for t, _ in raw)), "nrows": len(raw)}
         try:
-            generate_data(str(rp), parent_application=app, output_files=files or None, dburls=dburls, **kw)
+            generate_data(str(rp), parent_application=app, output_files=files or None, dburls=dburls, **kw, **cont_kw)
             obs["run"] = "ok"
         except BaseException as e:
             if type(e).__name__ == "_CaseTimeout":
@@ -941,7 +1031,10 @@ def run_direct_case(case):
             if fmt in ("db", "sql"):
                 try:
                     dec = decode_any(fmt, path, None)
-                    full.append({t: v["rows"] for t, v in dec["tables"].items()})
+                    written = {}
+                    for t, r in case["rows"]:
+                        written.setdefault(t, []).append(r)
+                    full.append({t: in_write_order(v["rows"], written.get(t, [])) for t, v in dec["tables"].items()})
                 except Exception:
                     full.append(None)
         obs["db_full"] = full
